@@ -282,8 +282,10 @@ class KeyVerdict:
     undecided: list = field(default_factory=list)
 
 
-def _local_defs(fn: FuncInfo):
-    defs = {}
+def local_defs(fn: FuncInfo):
+    """(defs, opaque): single-target local definitions, and the names bound by tuple unpacking - those are
+    treated as inputs of their own (a component of the unpacked value), never expanded."""
+    defs, opaque = {}, set()
     for n in ast.walk(fn.node):
         if isinstance(n, ast.Assign):
             for t in n.targets:
@@ -292,20 +294,24 @@ def _local_defs(fn: FuncInfo):
                 elif isinstance(t, (ast.Tuple, ast.List)):
                     for e in t.elts:
                         if isinstance(e, ast.Name):
-                            defs.setdefault(e.id, []).append(n.value)
-    return defs
+                            opaque.add(e.id)
+    for o in opaque:
+        defs.pop(o, None)
+    return defs, opaque
 
 
-def roots(expr, defs, params, seen=None, skip_defs_of=()):
+def roots(expr, defs, params, seen=None, skip_defs_of=(), opaque=frozenset()):
     """names of parameters / attributes of self that an expression is computed from (through local assignments)."""
     seen = seen if seen is not None else set()
     out = set()
     for n in ast.walk(expr):
         if isinstance(n, ast.Name) and isinstance(n.ctx, ast.Load):
-            if n.id in defs and n.id not in seen and n.id not in skip_defs_of:
+            if n.id in opaque:
+                out.add(n.id)
+            elif n.id in defs and n.id not in seen and n.id not in skip_defs_of:
                 seen.add(n.id)
                 for d in defs[n.id]:
-                    out |= roots(d, defs, params, seen, skip_defs_of)
+                    out |= roots(d, defs, params, seen, skip_defs_of, opaque)
                 if n.id in params:
                     out.add(n.id)
             elif n.id in params or n.id in defs:
@@ -320,9 +326,9 @@ def key_coverage(fn: FuncInfo, key_expr, value_expr, mapping_like=()) -> KeyVerd
     that are mappings - through .items() / repr / str.  frozenset(d), tuple(d), sorted(d), len(d), d.keys(), id(d)
     keep only part of a mapping: two different tables get the same key, so the remembered value is served for the
     wrong input."""
-    defs = _local_defs(fn)
+    defs, opaque = local_defs(fn)
     params = set(fn.params)
-    vroots = roots(value_expr, defs, params)
+    vroots = roots(value_expr, defs, params, opaque=opaque)
     # expand the key through local definitions but remember how each root is used
     lossy, present = [], set()
 
@@ -333,15 +339,15 @@ def key_coverage(fn: FuncInfo, key_expr, value_expr, mapping_like=()) -> KeyVerd
             fname = norm(e.func)
             short = fname.split(".")[-1]
             if short in LOSSY_PROJECTIONS and e.args:
-                for r in roots(e.args[0], defs, params):
+                for r in roots(e.args[0], defs, params, opaque=opaque):
                     lossy.append((r, norm(e)))
                 return
             if isinstance(e.func, ast.Attribute) and short in ("keys",):
-                for r in roots(e.func.value, defs, params):
+                for r in roots(e.func.value, defs, params, opaque=opaque):
                     lossy.append((r, norm(e)))
                 return
         if isinstance(e, ast.Name) and isinstance(e.ctx, ast.Load):
-            if e.id in defs and e.id not in params:
+            if e.id in defs and e.id not in params and e.id not in opaque:
                 for d in defs[e.id]:
                     visit(d, depth + 1)
                 return
